@@ -31,6 +31,8 @@ def run(check):
         'table': 'C03.R1', 'index': 'C03.R2', 'kinds': 'C03.R4', 'src': None, 'pdefault': None}))
     from ._shared import rule_posindex
     check.run_rule('C03.R2p', lambda c: rule_posindex(c, 'C03.R2'))
+    from ..rules_alias import rule_classification_fresh
+    check.run_rule('C03.R6', lambda c: rule_classification_fresh(c, 'C03.R6'))
     check.run_rule('C03.R3', lambda c: rule_mask_consume(c, model(), 'C03.R3'))
     check.run_rule('C03.R5', lambda c: rule_mask_hide(c, model(), 'C03.R5', None))
     from ..rules_defaults import rule_neutral_defaults
